@@ -96,11 +96,25 @@ func checkC19() fw.Check {
 				}
 			}
 			if tier == "thorough" {
-				// seeded sample of the full product
+				// the full product of the grid (2.2 million requests), plus a seeded quarter of it as end-to-end-only requests
 				rr := rand.New(rand.NewSource(seed*31 + 7))
-				for i := 0; i < 30000; i++ {
-					add(c19Req{minTTL: c19TTLs[rr.Intn(len(c19TTLs))], maxTTL: c19TTLs[rr.Intn(len(c19TTLs))], port: c19Ports[rr.Intn(len(c19Ports))],
-						proto: c19Protos[rr.Intn(len(c19Protos))], method: c19Methods[rr.Intn(len(c19Methods))], targetForm: c19Targets[rr.Intn(len(c19Targets))], viaHTTP: rr.Intn(3) == 0})
+				for _, mn := range c19TTLs {
+					for _, mx := range c19TTLs {
+						for _, port := range c19Ports {
+							for _, proto := range c19Protos {
+								for _, m := range c19Methods {
+									for _, tf := range c19Targets {
+										for _, http := range []bool{false, true} {
+											add(c19Req{minTTL: mn, maxTTL: mx, port: port, proto: proto, method: m, targetForm: tf, viaHTTP: http})
+											if rr.Intn(4) == 0 {
+												add(c19Req{minTTL: mn, maxTTL: mx, port: port, proto: proto, method: m, targetForm: tf, viaHTTP: http, e2eOnly: true})
+											}
+										}
+									}
+								}
+							}
+						}
+					}
 				}
 				for _, proto := range []string{"udp", "icmp"} {
 					for _, tf := range []string{"v6", "v6brport"} {
@@ -112,7 +126,10 @@ func checkC19() fw.Check {
 					}
 				}
 			}
-			const batch = 12
+			batch := 12
+			if tier == "thorough" {
+				batch = 400
+			}
 			var cases []fw.Case
 			// combinations: a SACK-capable target, path runs AND end-to-end probes in one request - the runs use the
 			// requested method, only the end-to-end probes are SYN
@@ -251,9 +268,9 @@ func runC19(c *fw.Ctx, id string, rq c19Req) {
 			// the runs' window is inverted; the end-to-end probe alone ([max,max]) may or may not be considered valid
 			return
 		}
-		if minTTL >= 1 && minTTL <= 255 {
-			minTTL = rq.maxTTL // an end-to-end probe covers exactly the last TTL
-		}
+		// an end-to-end probe covers exactly the last TTL; with no path run in the request the first TTL is never put
+		// on the wire (nor wrapped or truncated), so its value is not judged
+		minTTL = rq.maxTTL
 	}
 	method := rq.method
 	if method == "" {
